@@ -82,5 +82,8 @@ def setObj (init : List Nat) : Obj (List Nat) Mut where
   upd := setUpd
   ini s flag := if !s.isEmpty || flag then some (s, []) else none
   s0 := init
+  early
+    | .apply m => m.isEmpty     -- `if mutations.IsEmpty() { return ds.NewSetMutations() }` before `s.mutex.Lock()`
+    | _ => false
 
 end Hive.Reactive
